@@ -635,10 +635,21 @@ class AbstractConstraintSet(AbstractConstraint):
         return iter(self._values)
 
     def __add__(self, value):
-        return self.__class__(*(self._values + (value,)))
+        return self._derive(self._values + (value,))
 
     def __radd__(self, value):
-        return self.__class__(*((value,) + self._values))
+        return self._derive((value,) + self._values)
+
+    def _derive(self, values):
+        # Adding a constraint yields a subtype of `self`: let the set being
+        # extended stay recognisable (`isSuperTypeOf`) in what derives from it
+        derived = self.__class__(*values)
+
+        if self:
+            derived._valueMap.add(self)
+            derived._valueMap.update(self.getValueMap())
+
+        return derived
 
     def __len__(self):
         return len(self._values)
